@@ -1522,12 +1522,19 @@ class EBPF(EBPFBase):
         self.owners |= registers
         save = []
         with ExitStack() as exitStack:
+            # r0 is clobbered by the calls this is used around: never park
+            # a saved register there
+            reserve0 = 0 not in self.owners
+            if reserve0:
+                self.owners.add(0)
             for i in registers:
                 if i in oldowners:
                     tmp = exitStack.enter_context(self.get_free_register(None))
                     self.append(Opcode.MOV+Opcode.LONG+Opcode.REG,
                                 tmp, i, 0, 0)
                     save.append((tmp, i))
+            if reserve0:
+                self.owners.discard(0)
             yield
             for tmp, i in save:
                 self.append(Opcode.MOV+Opcode.LONG+Opcode.REG, i, tmp, 0, 0)
